@@ -212,3 +212,9 @@ def _opt(tag):
     o = Obj('std::option::Option<raw>')
     o.discr = z3.If(z3.Bool(f'{tag}_present'), z3.BitVecVal(1, 64), z3.BitVecVal(0, 64)); o.fields[('Some', 0)] = Obj('raw-' + tag, kind='opaque')
     return o
+
+
+# ----------------------------------------------------------------------------------------------------------------- shared with C09 / C02
+from obligations import c09 as _c09, c02 as _c02
+obligation('C17', 'C17-4 Celestia blobs: decode_raw_blobs never fails or panics; undecodable or foreign blobs are dropped as a whole (= C09-5)')(_c09.c09_5)
+obligation('C17', 'C17-5 a decoded transaction is accepted only if its signature verifies under its own key over exactly the decoded body bytes (= C02-S1)')(_c02.c02_s1)
